@@ -4,9 +4,10 @@ import contracts.harness_selection  # noqa
 import contracts.harness_chunk  # noqa
 import contracts.selection as SEL
 import contracts.chunk as CH
+import contracts.getiter as GI
 import contracts.standins_context as BX
 
-PROVED = [SEL.apply_time_range, SEL.apply_selection_range, SEL.apply_selection_none, SEL.loader_range, CH.chunk_split]
+PROVED = [SEL.apply_time_range, SEL.apply_selection_range, SEL.apply_selection_none, SEL.loader_range, CH.chunk_split, GI.get_iter]
 
 PROPERTY = Property(
     "C10", "proof",
